@@ -63,7 +63,8 @@ fn main() {
         }
         let t0 = ctx.now();
         flag.wait();
-        if ctx.now() > t0 + 1_000_000 {
+        // generous: the variants with random stalls may hold this thread for 3 x 30 ms
+        if ctx.now() > t0 + 200_000_000 {
             ctx.fail("a wait() issued after fire() did not return at once".into());
         }
     })
